@@ -133,6 +133,18 @@ fn case(ctx: &Ctx, rng: &mut Rng, rep: &mut Report, params: &vcore::bundlegen::G
                 if let Some(d) = diff_owned(bn, &normal(o)) {
                     rep.violation(&format!("c06-order-changes-summary:{}", diff_class(&d)), &d, w());
                 }
+                // cost does not depend on order, so the permuted bundle must also pass when given
+                // exactly the original order's cost as its limit
+                let exact = run_parse_spends(ctx, &p.output(), Repr::Plain, rng, bn.cost, f, visitor, &sig);
+                rep.eval();
+                rep.count("permutation-pairs-at-exact-cost");
+                if let Err(e) = exact {
+                    rep.violation(
+                        "c06-order-changes-verdict:at-exact-cost",
+                        &format!("the original order costs {} and is accepted; a reordering is rejected at that limit with {e:?}", bn.cost),
+                        w(),
+                    );
+                }
             }
             (None, Err(_)) => {}
             (Some(_), Err(e)) => rep.violation("c06-order-changes-verdict", &format!("original order accepted, permuted order rejected with {e:?}"), w()),
